@@ -85,3 +85,14 @@ Theorem C17_key_error_before_syntax_error :
             resolve tab (fst t) = KeyErr.
 Proof. exact syntax_failure_key_error. Qed.
 Print Assumptions C17_key_error_before_syntax_error.
+
+(* the model's recursion budget is not part of the answer: once the text-level parser has answered -- a tree or an exception
+   class -- every larger budget gives the same answer (so the budget 4*length+60 of parse_text could be any larger number) *)
+Theorem C17_budget_not_part_of_result :
+  forall order ignore rules infos filtered terminals end_sym T f stack vals s,
+  run_text order ignore rules infos filtered terminals end_sym T f stack vals s <> PBroken ->
+  forall f', f <= f' ->
+  run_text order ignore rules infos filtered terminals end_sym T f' stack vals s =
+  run_text order ignore rules infos filtered terminals end_sym T f stack vals s.
+Proof. exact run_text_mono. Qed.
+Print Assumptions C17_budget_not_part_of_result.
